@@ -729,3 +729,23 @@ example :
        .fwd .tauSelCtx false, .fwd .outClose false, .helper (.primRet 0), .helper (.deliver 0)]).map
       (fun s => (s.2.released, s.2.helpers, s.2.cancels, s.2.bufs))) = some (true, [], 1, [(0, 0)]) := by
   decide
+
+/-- The unilateral return steps that `C02_progress` relies on are REAL steps of the product: whenever Forward's model
+    may take the error return of `o` on its own (ctx done, aware adapter — `unilateral`), the adapter of `o` can take its
+    ctx.Done branch, so the synchronised product step exists. Together with `C02_progress` (which picks such a step
+    whenever a goroutine is parked in a call and the context is done) the awareness hypothesis is discharged per
+    operation by the helper model instead of being assumed. -/
+theorem C02_product_unilateral_return_enabled (p : Params) (q : GB.WCtx.Params) (hf : q.fresh = true) (o : Op)
+    (s : GB.Prod.PState M E) (hr : GB.Prod.PReachable p q o s) (l : Label M E) (f' : State M E)
+    (hs : step p s.1 l = some f') (hu : unilateral p s.1 l = true) (hro : retOf l = some o) :
+    (GB.Prod.pstep p q o s (.fwd l true)).isSome = true := by
+  obtain ⟨hS, _, _⟩ := GB.Prod.pinv_reach p q hf o s hr
+  have hp := (pend_ret p o s.1 f' l hS hs hro).2
+  have hce : s.1.ctx.isSome = true ∧ GB.Prod.isErrRet l = true := by
+    cases l <;> simp [retOf] at hro <;> (rename_i r; cases r <;> simp_all [unilateral, GB.Prod.isErrRet, errRetOf])
+  have hen := C02_product_ctx_return_enabled p q hf o s hr hp hce.1
+  have hnc : callOf l ≠ some o := by
+    have := (GB.Prod.ret_class o l hro).1; rw [this]; simp
+  cases hst : GB.WCtx.step q s.2 .takeCtx with
+  | none => rw [hst] at hen; cases hen
+  | some a' => simp [GB.Prod.pstep, hs, GB.Prod.adapterLabel, hnc, hro, hce.2, hst]
